@@ -187,9 +187,30 @@ def repo_test_specs() -> list[dict]:
     return out
 
 
-def gen_specs(seed: int, n_random: int) -> list[dict]:
+def sweep_specs(tier: str = "quick") -> list[dict]:
+    """Shipped stop conditions with all small parameters on one small configuration (C05: every point at which an
+    evaluation- or metaepoch-based condition can first become true, incl. inside a child's construction)."""
+    out = []
+    base = {"dim": 2, "box": "sym", "fn": "multi", "maximize": False, "seed": 77,
+            "levels": [{"engine": "SEA", "pop": 6, "gens": 2}, {"engine": "DE", "pop": 5, "gens": 1, "lsc": {"kind": "MetaepochLimit", "n": 2}}],
+            "sprout": {"kind": "simple", "far": 0.01, "limit": 2}}
+    step = 1 if tier == "thorough" else 2
+    for n in range(1, 90, step):
+        out.append(dict(base, name=f"sweep_evals{n}", gsc={"kind": "SingularEvalLimit", "n": n}))
+    for n in range(1, 60, 2 * step):
+        out.append(dict(base, name=f"sweep_wroot{n}", gsc={"kind": "WeightedEvalLimit", "n": n, "w": "root"}, hibernation=True))
+        out.append(dict(base, name=f"sweep_w12_{n}", gsc={"kind": "WeightedEvalLimit", "n": n, "w": [1, 2]}))
+    for n in range(0, 6):
+        out.append(dict(base, name=f"sweep_meta{n}", gsc={"kind": "MetaepochLimit", "n": n}, reports=True))
+    for n in range(0, 3):
+        out.append(dict(base, name=f"sweep_nonroot{n}", gsc={"kind": "NoActiveNonroot", "n": n}, max_consults=300, maystall=True))
+    out.append(dict(base, name="sweep_dontrun", gsc={"kind": "DontRun"}, reports=True))
+    return out
+
+
+def gen_specs(seed: int, n_random: int, tier: str = "quick") -> list[dict]:
     r = random.Random(seed)
-    specs = repo_test_specs()
+    specs = repo_test_specs() + sweep_specs(tier)
     for i in range(n_random):
         specs.append(random_spec(r, i))
     return specs
